@@ -234,6 +234,11 @@ def c07c(F, R):
             if par.get("k") == "MethodCall" and par["name"] == "ok_or" and mentions_call(par["recv"], "next"):
                 okk, why = True, "lexer.next().ok_or(UnexpectedEOF)"
                 break
+            if par.get("k") == "MethodCall" and par["name"] in ("unwrap_or", "unwrap_or_else", "map_or", "map_or_else", "ok_or", "ok_or_else") and (mentions_call(par["recv"], "peek") or mentions_call(par["recv"], "next")) \
+                    and any(y is x or any(z is x for z in walk(y, pats=False)) for y in par["args"][:1]):
+                # `lexer.peek().cloned().unwrap_or(Err(UnexpectedEOF))`: the default of an exhausted lexer
+                okk, why = True, f"default of an exhausted lexer ({par['name']})"
+                break
             if "pat" in par and "body" in par and "k" not in par:
                 mt = pm.get(id(par))
                 if pat_variants(par["pat"]) == [("path", "core::option::Option::None")] and mt and mentions_call(mt["scrut"], "peek"):
@@ -1719,6 +1724,29 @@ def c07p(F, R):
     g = F.fn(rp[0])
     body = g["hir"]["value"]
     loops = list(for_loops(body))
+
+    def classify(e):
+        if e.get("k") == "Binary" and e["op"] in ("Eq", "Ne") and any((x.get("res") or "").endswith("TokenType::Newline") for x in walk(e, pats=False) if x.get("k") == "Path"):
+            return "is_nl" if e["op"] == "Eq" else "not_nl"
+        if e.get("k") == "Match" and len(e.get("arms", [])) == 2 and any(v and v.endswith("TokenType::Newline") for k_, v in pat_variants(e["arms"][0]["pat"]) if k_ == "path") and lit_value(e["arms"][0]["body"]) is True:
+            return "is_nl"
+        return None
+    if not loops:
+        # iterator form: `.find(|t| *t == Newline)` / `.position(..)` / `.any(..)` consume up to and including the first hit
+        finds = [m for m in walk(body, pats=False) if m.get("k") == "MethodCall" and m["name"] in ("find", "position", "any") and m["args"] and peel(m["args"][0]).get("k") == "Closure"]
+        if len(finds) == 1:
+            cl = peel(finds[0]["args"][0])
+            try:
+                a = bool_eval(cl["body"], classify, {"is_nl": True, "not_nl": False})
+                b = bool_eval(cl["body"], classify, {"is_nl": False, "not_nl": True})
+            except BoolUnx as ex:
+                R.bad("condition|unextractable", f"UNEXTRACTABLE: recovery stop condition ({ex})", loc(finds[0]))
+                return
+            if a is True and b is False:
+                R.ok("condition", detail=f"`.{finds[0]['name']}(is newline)` consumes up to and including the newline token", where=loc(finds[0]))
+            else:
+                R.bad("condition", f"the recovery stops at a token for which `is newline` is {not a if a is not None else a}: newline -> {a}, other -> {b}", loc(finds[0]))
+            return
     if len(loops) != 1:
         R.bad("shape", f"UNEXTRACTABLE: expected one token loop in recover_from_parse_error, found {len(loops)}", g["sp"])
         return
